@@ -83,7 +83,16 @@ def run_case(case, ctx):
     ctx.nontrivial = len(idx) >= 2
     prev_last = e_start
     complete = prof == 'maximal' and palette.exactness_predicate(qd, qD, twosite=algo.startswith('two'))
-    for inv in range(2):
+    for inv in range(3):
+        if inv == 2:
+            # third invocation after modifying the SAME Hamiltonian object in place (rescaled first tensor)
+            H.A[0] *= 1.5
+            Hd = Hd * 1.5
+            hb = ec.mpo_bytes(H)
+            E0, e_start, prev_last = 1.5 * E0, 1.5 * e_start, 1.5 * prev_last
+            escale = 1 + float(np.max(np.abs(Hd)))
+            eps = 1e-9 * escale
+            ctx.cls('hamiltonian_modified_between_invocations')
         en = run_dmrg(algo, H, psi, sweeps, it)
         ctx.calls += 1
         en = np.asarray(en, dtype=float)
